@@ -463,9 +463,9 @@ def run(pid, tier):
         d11 = "D11" in active or any(f["id"] == "D11" and f["status"] == "known" and pid in f["properties"] for f in load_findings())
 
         # ---- MC + RP over the bounded universe
-        ALLSHAPES = "<<" + ",".join(str(i) for i in range(1, 47)) + ">>"
+        ALLSHAPES = "<<" + ",".join(str(i) for i in range(1, 49)) + ">>"
         # (free relations, shapes of the first one, shapes of the others)
-        universes = [(2, ALLSHAPES, "<<1,3,4,5,6,9,11,13,22,27,36,39,40>>"), (3, "<<4,21>>", "<<4,21,22,42,43>>")] if tier == "quick" else \
+        universes = [(2, ALLSHAPES, "<<1,3,4,5,6,9,11,13,22,27,36,39,40>>"), (3, "<<4,21,47>>", "<<4,21,22,42,43>>")] if tier == "quick" else \
                     [(2, ALLSHAPES, ALLSHAPES), (3, "<<1,2,4,6,8,9,11,12,13,14,16,17,22,25,26,27,28,30,31,34,35>>", "<<1,4,5,6,9,11,22,27,36,39,40,42,43>>")]
         states = trans = 0
         allmodels = []
